@@ -356,14 +356,19 @@ _HUGE_CATS = {'L', 'Lo', 'C', 'Cn', 'Co', 'S', 'So'}
 def _cls_slow(n) -> bool:
     """[huge positive set - [class with a negative part]]: CharacterClass.__isub__ intersects code point by code
     point (seconds per translation); still generated, but rarely, and never minimised with a large budget"""
+    if any(p[0] == 'r' and ord(dec(p[2])) - ord(dec(p[1])) > 200000 for p in n[2]):
+        return True      # bool(UnicodeSubset) walks every code point: ~0.15 s per translation
     if n[3] is None:
         return False
     sub = n[3]
     if _cls_slow(sub):
         return True
-    left_huge = not n[1] and any(
-        (p[0] == 'mce' and p[1] in 'wic') or (p[0] == 'cat' and not p[2] and p[1] in _HUGE_CATS)
-        or (p[0] == 'r' and ord(dec(p[2])) - ord(dec(p[1])) > 20000) for p in n[2])
+    if n[1]:
+        # [^\W..] / [^\P{..}..]: the complement of a negated escape is a huge positive set
+        left_huge = any((p[0] == 'mce' and p[1] in 'WIC') or (p[0] in ('cat', 'blk') and p[2]) for p in n[2])
+    else:
+        left_huge = any((p[0] == 'mce' and p[1] in 'wic') or (p[0] == 'cat' and not p[2] and p[1] in _HUGE_CATS)
+                        or (p[0] == 'r' and ord(dec(p[2])) - ord(dec(p[1])) > 20000) for p in n[2])
     right_negative = bool(sub[1]) or any((p[0] == 'mce' and p[1].isupper()) or (p[0] in ('cat', 'blk') and p[2])
                                          for p in sub[2])
     return left_huge and right_negative
@@ -490,6 +495,8 @@ def _gen_cls(draw, depth=0):
             parts.append(['c', draw(st.sampled_from(CLS_CHARS))])
         elif kind == 'r':
             lo, hi = draw(st.sampled_from(RANGES if draw(st.integers(0, 19)) < 18 else RANGES_ESC))
+            if ord(dec(hi)) - ord(dec(lo)) > 200000 and draw(st.integers(0, 3)) > 0:
+                lo, hi = 'a', 'z'       # the top-of-code-space range stays, but rare (slow to translate)
             parts.append(['r', lo, hi])
         elif kind == 'e':
             parts.append(['e', draw(st.sampled_from(list('nrt') + list('\\|.?*+(){}-[]^')))])
